@@ -9,6 +9,10 @@ accepted in the window `[s, s + W]`.
 -/
 import Discv5Model.Model.Filter
 
+set_option linter.unusedSectionVars false
+set_option linter.unusedSimpArgs false
+set_option linter.unusedVariables false
+
 namespace Discv5.Limiter
 
 variable {κ : Type} [DecidableEq κ]
@@ -490,4 +494,940 @@ theorem tracks_run {l : Limiter κ} {key : κ} {H : Hist} {lo : Nat} (es : List 
       simp only [accepted, lastTime]
       exact ih (tracks_prune h h1 h2) h3
 
+/-! ### Windows -/
+
+/-- Tokens of the arrivals at or after `s`. -/
+def tokLower (H : Hist) (s : Nat) : Nat :=
+  ((H.filter (fun p => decide (s ≤ p.1))).map (·.2)).sum
+
+theorem tokensIn_cons (a k : Nat) (r : Hist) (s W : Nat) :
+    tokensIn ((a, k) :: r) s W
+      = (if s ≤ a ∧ a ≤ s + W then k else 0) + tokensIn r s W := by
+  unfold tokensIn
+  by_cases h : s ≤ a ∧ a ≤ s + W
+  · simp [List.filter_cons, h]
+  · simp [List.filter_cons, h]
+
+theorem tokLower_cons (a k : Nat) (r : Hist) (s : Nat) :
+    tokLower ((a, k) :: r) s = (if s ≤ a then k else 0) + tokLower r s := by
+  unfold tokLower
+  by_cases h : s ≤ a
+  · simp [List.filter_cons, h]
+  · simp [List.filter_cons, h]
+
+theorem tokLower_eq_zero (r : Hist) (s : Nat) (h : ∀ p ∈ r, p.1 < s) : tokLower r s = 0 := by
+  induction r with
+  | nil => rfl
+  | cons x r ih =>
+    obtain ⟨a, k⟩ := x
+    rw [tokLower_cons, ih (fun p hp => h p (List.mem_cons_of_mem _ hp))]
+    have := h (a, k) (by simp)
+    simp only [] at this
+    rw [if_neg (by omega)]
+
+theorem tokensIn_eq_tokLower (r : Hist) (s W : Nat) (h : ∀ p ∈ r, p.1 ≤ s + W) :
+    tokensIn r s W = tokLower r s := by
+  induction r with
+  | nil => rfl
+  | cons x r ih =>
+    obtain ⟨a, k⟩ := x
+    rw [tokensIn_cons, tokLower_cons, ih (fun p hp => h p (List.mem_cons_of_mem _ hp))]
+    have := h (a, k) (by simp)
+    simp only [] at this
+    by_cases hs : s ≤ a
+    · rw [if_pos ⟨hs, this⟩, if_pos hs]
+    · rw [if_neg (fun hc => hs hc.1), if_neg hs]
+
+theorem tokensIn_append (X Y : Hist) (s W : Nat) :
+    tokensIn (X ++ Y) s W = tokensIn X s W + tokensIn Y s W := by
+  unfold tokensIn
+  simp [List.filter_append, List.map_append, List.sum_append]
+
+/-- In a conforming (hence sorted) history the tokens at or after `s` are one of the `Sᵢ`. -/
+theorem tokLower_zero_or_mem {tau t : Nat} {r : Hist} (hc : Conf tau t r) (s : Nat) :
+    tokLower r s = 0 ∨ ∃ p ∈ sums r, p.2 = tokLower r s ∧ s ≤ p.1 := by
+  induction r with
+  | nil => left; rfl
+  | cons x r ih =>
+    obtain ⟨b, kb⟩ := x
+    obtain ⟨_, hsort, hr⟩ := hc
+    rw [tokLower_cons]
+    by_cases hb : s ≤ b
+    · rw [if_pos hb]
+      right
+      rcases ih hr with h0 | ⟨q, hq, hq2, hq1⟩
+      · exact ⟨(b, kb), by simp [sums], by simp [h0], hb⟩
+      · refine ⟨(q.1, q.2 + kb), ?_, by simp only []; omega, hq1⟩
+        simp only [sums, List.mem_cons, List.mem_map]
+        exact Or.inr ⟨q, hq, rfl⟩
+    · rw [if_neg hb]
+      left
+      rw [tokLower_eq_zero r s (fun p hp => by have := hsort p hp; omega)]
+
+/-- The window bound of a conforming history: the tokens accepted in any window `[s, s + W]`,
+times `t`, are at most `W + tau`. -/
+theorem conf_window {tau t : Nat} {H : Hist} (hc : Conf tau t H) (s W : Nat) :
+    tokensIn H s W * t ≤ W + tau := by
+  induction H with
+  | nil => simp [tokensIn]
+  | cons x r ih =>
+    obtain ⟨a, k⟩ := x
+    obtain ⟨⟨hk, hcond⟩, hsort, hr⟩ := hc
+    rw [tokensIn_cons]
+    by_cases h1 : s ≤ a ∧ a ≤ s + W
+    · rw [if_pos h1, tokensIn_eq_tokLower r s W (fun p hp => by have := hsort p hp; omega)]
+      rcases tokLower_zero_or_mem hr s with h0 | ⟨p, hp, hp2, hp1⟩
+      · rw [h0]; simp only [Nat.add_zero]; omega
+      · have := hcond p hp
+        rw [← hp2, Nat.add_comm k p.2]
+        omega
+    · rw [if_neg h1]
+      simp only [Nat.zero_add]
+      exact ih hr
+
+/-- Every `Sᵢ` is at most the tokens of the window that starts at `aᵢ`. -/
+theorem sums_le_tokensIn {tau t : Nat} {H : Hist} (hc : Conf tau t H) (hi : Nat)
+    (hhi : ∀ e ∈ H, e.1 ≤ hi) {p : Nat × Nat} (hp : p ∈ sums H) :
+    p.2 ≤ tokensIn H p.1 (hi - p.1) := by
+  induction H generalizing p with
+  | nil => simp [sums] at hp
+  | cons x r ih =>
+    obtain ⟨b, kb⟩ := x
+    obtain ⟨_, hsort, hr⟩ := hc
+    have hb : b ≤ hi := hhi (b, kb) (by simp)
+    rw [tokensIn_cons]
+    simp only [sums, List.mem_cons, List.mem_map] at hp
+    rcases hp with rfl | ⟨q, hq, rfl⟩
+    · simp only []
+      rw [if_pos ⟨Nat.le_refl _, by omega⟩]
+      omega
+    · simp only []
+      obtain ⟨e, he, heq⟩ := sums_time_mem hq
+      have hqb : q.1 ≤ b := by have := hsort e he; omega
+      rw [if_pos ⟨hqb, by omega⟩]
+      have := ih hr (fun e he => hhi e (List.mem_cons_of_mem _ he)) hq
+      omega
+
+theorem offered_suffix (key : κ) (H : Hist) (es : List (Ev κ)) :
+    ∃ pre, offered key H es = pre ++ H := by
+  induction es generalizing H with
+  | nil => exact ⟨[], rfl⟩
+  | cons e es ih =>
+    cases e with
+    | arrive ns k tokens =>
+      simp only [offered]
+      by_cases hk : k = key
+      · rw [if_pos hk]
+        obtain ⟨pre, hpre⟩ := ih ((ns, tokens) :: H)
+        exact ⟨pre ++ [(ns, tokens)], by rw [hpre]; simp⟩
+      · rw [if_neg hk]; exact ih H
+    | prune ns => simp only [offered]; exact ih H
+
+/-- Offered traffic whose every window respects the quota is accepted entirely. -/
+theorem conforming_run {l : Limiter κ} {key : κ} {H : Hist} {lo : Nat} (es : List (Ev κ))
+    (h : Tracks l key H lo) (hT : Timed l.tau l.t lo es)
+    (hw : ∀ s W, tokensIn (offered key H es) s W * l.t ≤ W + l.tau) :
+    (∀ v ∈ verdictsOf key l es, v = .ok) ∧ accepted key l H es = offered key H es := by
+  induction es generalizing l H lo with
+  | nil => exact ⟨by simp [verdictsOf], rfl⟩
+  | cons e es ih =>
+    cases e with
+    | arrive ns k tokens =>
+      obtain ⟨h1, h2, h3, h4⟩ := hT
+      have h4' : Timed (l.allows ns k tokens).1.tau (l.allows ns k tokens).1.t ns es := by
+        rw [allows_tau, allows_t]; exact h4
+      simp only [verdictsOf, accepted, offered] at hw ⊢
+      by_cases hk : k = key
+      · subst hk
+        simp only [if_true, true_and] at hw ⊢
+        -- the arrival is accepted
+        have hok : (l.allows ns k tokens).2 = .ok := by
+          rw [allows_eq_allowsI l ns k tokens h2 h3 (h.entry_le h1)]
+          apply (allowsI_ok_iff h h1).mpr
+          obtain ⟨pre, hpre⟩ := offered_suffix k ((ns, tokens) :: H) es
+          have hfull : ∀ s W, tokensIn ((ns, tokens) :: H) s W * l.t ≤ W + l.tau := by
+            intro s W
+            have := hw s W
+            rw [hpre, tokensIn_append, Nat.add_mul] at this
+            omega
+          constructor
+          · have := hfull ns 0
+            rw [tokensIn_cons, if_pos ⟨Nat.le_refl _, by omega⟩, Nat.add_mul] at this
+            omega
+          · intro p hp
+            obtain ⟨e, he, heq⟩ := sums_time_mem hp
+            have hpt : p.1 ≤ ns := by have := h.times_le e he; omega
+            have hB := sums_le_tokensIn h.conf ns
+              (fun e he => Nat.le_trans (h.times_le e he) h1) hp
+            have := hfull p.1 (ns - p.1)
+            rw [tokensIn_cons, if_pos ⟨hpt, by omega⟩] at this
+            have hmono : (p.2 + tokens) * l.t ≤ (tokens + tokensIn H p.1 (ns - p.1)) * l.t :=
+              Nat.mul_le_mul_right _ (by omega)
+            omega
+        have hstep := tracks_step_key h h1 h2 h3
+        rw [hok] at hstep ⊢
+        simp only [if_true] at hstep ⊢
+        have := ih hstep h4' (by rw [allows_tau, allows_t]; exact hw)
+        refine ⟨?_, this.2⟩
+        intro v hv
+        rcases List.mem_cons.mp hv with rfl | hv
+        · rfl
+        · exact this.1 v hv
+      · have hne : key ≠ k := fun hc => hk hc.symm
+        simp only [hk, false_and, if_false] at hw ⊢
+        exact ih (tracks_step_other tokens h h1 hne) h4' (by rw [allows_tau, allows_t]; exact hw)
+    | prune ns =>
+      obtain ⟨h1, h2, h3⟩ := hT
+      simp only [verdictsOf, accepted, offered] at hw ⊢
+      exact ih (tracks_prune h h1 h2) h3 hw
+
+/-! ### Prune is transparent -/
+
+/-- The part of `allowsI` that concerns the key's own entry `e`. -/
+def stepKey (tau t : Nat) (e : Option Nat) (now tokens : Nat) : Option Nat × Verdict :=
+  if t * tokens > tau then (e, .tooLarge)
+  else if now + tau < e.getD now + t * tokens then
+    (some (e.getD now), .tooSoon (e.getD now + t * tokens - tau - now))
+  else (some (max now (e.getD now) + t * tokens), .ok)
+
+theorem allowsI_verdict (l : Limiter κ) (now : Nat) (key : κ) (tokens : Nat) :
+    (allowsI l now key tokens).2 = (stepKey l.tau l.t (l.tat key) now tokens).2 := by
+  unfold allowsI stepKey
+  split
+  · rfl
+  · split <;> rfl
+
+theorem allowsI_tat (l : Limiter κ) (now : Nat) (key : κ) (tokens : Nat) (k : κ) :
+    (allowsI l now key tokens).1.tat k
+      = if k = key then (stepKey l.tau l.t (l.tat key) now tokens).1 else l.tat k := by
+  unfold allowsI stepKey
+  by_cases hk : k = key
+  · subst hk
+    simp only [if_true]
+    split
+    · rfl
+    · split <;> simp [setTat]
+  · simp only [hk, if_false]
+    split
+    · rfl
+    · split <;> simp [setTat, hk]
+
+theorem allowsI_tau (l : Limiter κ) (now : Nat) (key : κ) (tokens : Nat) :
+    (allowsI l now key tokens).1.tau = l.tau := by
+  unfold allowsI
+  split
+  · rfl
+  · split <;> rfl
+
+theorem allowsI_t (l : Limiter κ) (now : Nat) (key : κ) (tokens : Nat) :
+    (allowsI l now key tokens).1.t = l.t := by
+  unfold allowsI
+  split
+  · rfl
+  · split <;> rfl
+
+/-- A pruned entry (`none`) and an unpruned one whose bucket is full again (`v ≤ now`) behave
+alike. -/
+theorem stepKey_pruned (tau t v now tokens : Nat) (hv : v ≤ now) :
+    (stepKey tau t none now tokens).2 = (stepKey tau t (some v) now tokens).2 ∧
+    ((stepKey tau t none now tokens).1 = (stepKey tau t (some v) now tokens).1 ∨
+     ((stepKey tau t none now tokens).1 = none ∧ (stepKey tau t (some v) now tokens).1 = some v)) := by
+  unfold stepKey
+  by_cases hl : t * tokens > tau
+  · rw [if_pos hl, if_pos hl]; exact ⟨rfl, Or.inr ⟨rfl, rfl⟩⟩
+  · rw [if_neg hl, if_neg hl]
+    simp only [Option.getD_none, Option.getD_some]
+    rw [if_neg (by omega), if_neg (by omega)]
+    refine ⟨rfl, Or.inl ?_⟩
+    have : max now now + t * tokens = max now v + t * tokens := by omega
+    simp only [this]
+
+theorem stepKey_bound (tau t : Nat) (e : Option Nat) (now tokens : Nat)
+    (he : ∀ v, e = some v → v ≤ now + tau) :
+    ∀ w, (stepKey tau t e now tokens).1 = some w → w ≤ now + tau := by
+  have hget : e.getD now ≤ now + tau := by
+    cases e with
+    | none => simp
+    | some v => simpa using he v rfl
+  unfold stepKey
+  intro w
+  by_cases hl : t * tokens > tau
+  · rw [if_pos hl]; exact he w
+  · rw [if_neg hl]
+    by_cases hs : now + tau < e.getD now + t * tokens
+    · rw [if_pos hs]; intro hw; injection hw with hw; omega
+    · rw [if_neg hs]; intro hw; injection hw with hw; omega
+
+/-- `l` (pruned from time to time) against `l'` (never pruned). -/
+structure PruneRel (l l' : Limiter κ) (hi : Nat) : Prop where
+  tau_eq : l.tau = l'.tau
+  t_eq : l.t = l'.t
+  tat : ∀ k, l.tat k = l'.tat k ∨ (l.tat k = none ∧ ∃ v, l'.tat k = some v ∧ v ≤ hi)
+  bound : ∀ k v, l'.tat k = some v → v ≤ hi + l'.tau
+
+theorem PruneRel.bound_left {l l' : Limiter κ} {hi : Nat} (h : PruneRel l l' hi) :
+    ∀ k v, l.tat k = some v → v ≤ hi + l.tau := by
+  intro k v hv
+  rcases h.tat k with he | ⟨hn, _⟩
+  · rw [h.tau_eq]; exact h.bound k v (he ▸ hv)
+  · rw [hn] at hv; cases hv
+
+theorem pruneRel_arrive {l l' : Limiter κ} {hi now : Nat} (key : κ) (tokens : Nat)
+    (h : PruneRel l l' hi) (hh : hi ≤ now) (hn : now + 2 * l.tau < U64) (hk : l.t * tokens < U64) :
+    (l.allows now key tokens).2 = (l'.allows now key tokens).2 ∧
+    PruneRel (l.allows now key tokens).1 (l'.allows now key tokens).1 now := by
+  have hbl : ∀ v, l.tat key = some v → v ≤ now + l.tau := fun v hv => by
+    have := h.bound_left key v hv; omega
+  have hbr : ∀ v, l'.tat key = some v → v ≤ now + l'.tau := fun v hv => by
+    have := h.bound key v hv; omega
+  rw [allows_eq_allowsI l now key tokens hn hk hbl,
+    allows_eq_allowsI l' now key tokens (by rw [← h.tau_eq]; exact hn) (by rw [← h.t_eq]; exact hk) hbr]
+  rw [allowsI_verdict, allowsI_verdict, ← h.tau_eq, ← h.t_eq]
+  have hkey : (stepKey l.tau l.t (l.tat key) now tokens).2 = (stepKey l.tau l.t (l'.tat key) now tokens).2 ∧
+      ((stepKey l.tau l.t (l.tat key) now tokens).1 = (stepKey l.tau l.t (l'.tat key) now tokens).1 ∨
+       ((stepKey l.tau l.t (l.tat key) now tokens).1 = none ∧
+         ∃ v, (stepKey l.tau l.t (l'.tat key) now tokens).1 = some v ∧ v ≤ now)) := by
+    rcases h.tat key with he | ⟨hnone, v, hv, hvle⟩
+    · rw [he]; exact ⟨rfl, Or.inl rfl⟩
+    · rw [hnone, hv]
+      have := stepKey_pruned l.tau l.t v now tokens (by omega)
+      refine ⟨this.1, ?_⟩
+      rcases this.2 with h1 | ⟨h1, h2⟩
+      · exact Or.inl h1
+      · exact Or.inr ⟨h1, v, h2, by omega⟩
+  refine ⟨hkey.1, ⟨?_, ?_, ?_, ?_⟩⟩
+  · rw [allowsI_tau, allowsI_tau]; exact h.tau_eq
+  · rw [allowsI_t, allowsI_t]; exact h.t_eq
+  · intro k
+    rw [allowsI_tat, allowsI_tat, ← h.tau_eq, ← h.t_eq]
+    by_cases hkk : k = key
+    · rw [if_pos hkk, if_pos hkk]; exact hkey.2
+    · rw [if_neg hkk, if_neg hkk]
+      rcases h.tat k with he | ⟨hnone, v, hv, hvle⟩
+      · exact Or.inl he
+      · exact Or.inr ⟨hnone, v, hv, by omega⟩
+  · intro k v
+    rw [allowsI_tat, allowsI_tau]
+    by_cases hkk : k = key
+    · rw [if_pos hkk]
+      exact stepKey_bound l'.tau l'.t (l'.tat key) now tokens hbr v
+    · rw [if_neg hkk]
+      intro hv
+      have := h.bound k v hv
+      omega
+
+theorem pruneRel_prune {l l' : Limiter κ} {hi lim : Nat}
+    (h : PruneRel l l' hi) (hh : hi ≤ lim) (hl : lim < U64) : PruneRel (l.prune lim) l' lim := by
+  have hmod : lim % U64 = lim := Nat.mod_eq_of_lt hl
+  refine ⟨h.tau_eq, h.t_eq, ?_, ?_⟩
+  · intro k
+    rw [prune_tat, hmod]
+    rcases h.tat k with he | ⟨hnone, v, hv, hvle⟩
+    · cases hk : l.tat k with
+      | none => left; rw [← he, hk]
+      | some w =>
+        simp only []
+        by_cases hw : w ≥ lim
+        · rw [if_pos hw]; left; rw [← he, hk]
+        · rw [if_neg hw]; right
+          exact ⟨rfl, w, by rw [← he, hk], by omega⟩
+    · rw [hnone]; right
+      exact ⟨rfl, v, hv, by omega⟩
+  · intro k v hv
+    have := h.bound k v hv
+    omega
+
+/-- Decisions with and without the prune calls coincide. -/
+theorem pruneRel_run {l l' : Limiter κ} {hi : Nat} (es : List (Ev κ))
+    (h : PruneRel l l' hi) (hT : Timed l.tau l.t hi es) :
+    (run l es).2 = (run l' (stripPrune es)).2 := by
+  induction es generalizing l l' hi with
+  | nil => rfl
+  | cons e es ih =>
+    cases e with
+    | arrive ns k tokens =>
+      obtain ⟨h1, h2, h3, h4⟩ := hT
+      have hs := pruneRel_arrive k tokens h h1 h2 h3
+      simp only [stripPrune, run_arrive]
+      rw [hs.1, ih hs.2 (by rw [allows_tau, allows_t]; exact h4)]
+    | prune ns =>
+      obtain ⟨h1, h2, h3⟩ := hT
+      simp only [stripPrune, run_prune]
+      exact ih (pruneRel_prune h h1 h2) h3
+
+theorem pruneRel_refl (l : Limiter κ) (hi : Nat) (hb : ∀ k v, l.tat k = some v → v ≤ hi + l.tau) :
+    PruneRel l l hi :=
+  ⟨rfl, rfl, fun _ => Or.inl rfl, hb⟩
+
+/-! ### One token per arrival -/
+
+/-- Every arrival of the history costs one token (as in `RateLimiter::allows`). -/
+def UnitTokens : List (Ev κ) → Prop
+  | [] => True
+  | .arrive _ _ tokens :: es => tokens = 1 ∧ UnitTokens es
+  | .prune _ :: es => UnitTokens es
+
+theorem accepted_unit (key : κ) (l : Limiter κ) (H : Hist) (es : List (Ev κ))
+    (hH : ∀ p ∈ H, p.2 = 1) (hu : UnitTokens es) : ∀ p ∈ accepted key l H es, p.2 = 1 := by
+  induction es generalizing l H with
+  | nil => exact hH
+  | cons e es ih =>
+    cases e with
+    | arrive ns k tokens =>
+      obtain ⟨h1, h2⟩ := hu
+      simp only [accepted]
+      apply ih _ _ _ h2
+      intro p hp
+      split at hp
+      · rcases List.mem_cons.mp hp with rfl | hp
+        · exact h1
+        · exact hH p hp
+      · exact hH p hp
+    | prune ns => exact ih _ _ hH hu
+
+theorem tokensIn_unit (H : Hist) (h1 : ∀ p ∈ H, p.2 = 1) (s W : Nat) :
+    tokensIn H s W = (H.filter (fun p => decide (s ≤ p.1 ∧ p.1 ≤ s + W))).length := by
+  induction H with
+  | nil => rfl
+  | cons x r ih =>
+    obtain ⟨a, k⟩ := x
+    have hk : k = 1 := h1 (a, k) (by simp)
+    rw [tokensIn_cons, ih (fun p hp => h1 p (List.mem_cons_of_mem _ hp))]
+    by_cases h : s ≤ a ∧ a ≤ s + W
+    · simp [List.filter_cons, h, hk]; omega
+    · simp [List.filter_cons, h]
+
+/-! ### The three-quota `RateLimiter` -/
+
+theorem PruneRel.mono {l l' : Limiter κ} {hi hi' : Nat} (h : PruneRel l l' hi) (hh : hi ≤ hi') :
+    PruneRel l l' hi' := by
+  refine ⟨h.tau_eq, h.t_eq, ?_, ?_⟩
+  · intro k
+    rcases h.tat k with he | ⟨hn, v, hv, hle⟩
+    · exact Or.inl he
+    · exact Or.inr ⟨hn, v, hv, by omega⟩
+  · intro k v hv
+    have := h.bound k v hv
+    omega
+
+/-- One call on a `RateLimiter`. -/
+inductive REv where
+  | allow (ns : Nat) (kind : LimitKind)
+  | prune (ns : Nat)
+
+/-- Runs the calls; returns the final state and the verdicts of the `allows` calls. -/
+def rrun (r : RateLimiter) : List REv → RateLimiter × List Verdict
+  | [] => (r, [])
+  | .allow ns kind :: es => ((rrun (r.allows ns kind).1 es).1, (r.allows ns kind).2 :: (rrun (r.allows ns kind).1 es).2)
+  | .prune ns :: es => rrun (r.prune ns) es
+
+def rstrip : List REv → List REv
+  | [] => []
+  | .allow ns kind :: es => .allow ns kind :: rstrip es
+  | .prune _ :: es => rstrip es
+
+/-- Times never decrease and stay far from `u64` overflow (`B` bounds every `tau`). -/
+def RTimed (B : Nat) : Nat → List REv → Prop
+  | _, [] => True
+  | lo, .allow ns _ :: es => lo ≤ ns ∧ ns + 2 * B < U64 ∧ RTimed B ns es
+  | lo, .prune ns :: es => lo ≤ ns ∧ ns < U64 ∧ RTimed B ns es
+
+/-- `PruneRel` for an optional limiter, with `t ≤ tau ≤ B`. -/
+def OptRel (B : Nat) (o o' : Option (Limiter Nat)) (hi : Nat) : Prop :=
+  (o = none ∧ o' = none) ∨ ∃ l l', o = some l ∧ o' = some l' ∧ PruneRel l l' hi ∧ l.t ≤ l.tau ∧ l.tau ≤ B
+
+structure RRel (B : Nat) (r r' : RateLimiter) (hi : Nat) : Prop where
+  total : PruneRel r.total r'.total hi
+  total_wf : r.total.t ≤ r.total.tau ∧ r.total.tau ≤ B
+  node : OptRel B r.node r'.node hi
+  ip : OptRel B r.ip r'.ip hi
+
+theorem OptRel.mono {B : Nat} {o o' : Option (Limiter Nat)} {hi hi' : Nat} (h : OptRel B o o' hi)
+    (hh : hi ≤ hi') : OptRel B o o' hi' := by
+  rcases h with h | ⟨l, l', h1, h2, h3, h4⟩
+  · exact Or.inl h
+  · exact Or.inr ⟨l, l', h1, h2, h3.mono hh, h4⟩
+
+theorem optRel_prune {B : Nat} {o o' : Option (Limiter Nat)} {hi lim : Nat} (h : OptRel B o o' hi)
+    (hh : hi ≤ lim) (hl : lim < U64) : OptRel B (o.map (·.prune lim)) o' lim := by
+  rcases h with ⟨rfl, rfl⟩ | ⟨l, l', rfl, rfl, h3, h4⟩
+  · left; exact ⟨rfl, rfl⟩
+  · right
+    exact ⟨l.prune lim, l', rfl, rfl, pruneRel_prune h3 hh hl, h4⟩
+
+/-- Verdict of an optional limiter (`None` lets everything pass). -/
+def optVerdict (o : Option (Limiter Nat)) (now key : Nat) : Verdict :=
+  match o with
+  | some lim => (lim.allows now key 1).2
+  | none => .ok
+
+def optNext (o : Option (Limiter Nat)) (now key : Nat) : Option (Limiter Nat) :=
+  o.map fun lim => (lim.allows now key 1).1
+
+theorem allows_node (r : RateLimiter) (now id : Nat) :
+    r.allows now (.nodeId id) = ({ r with node := optNext r.node now id }, optVerdict r.node now id) := by
+  obtain ⟨tot, node, ipl⟩ := r
+  unfold RateLimiter.allows optNext optVerdict
+  cases node <;> rfl
+
+theorem allows_ip (r : RateLimiter) (now ip : Nat) :
+    r.allows now (.ip ip) = ({ r with ip := optNext r.ip now ip }, optVerdict r.ip now ip) := by
+  obtain ⟨tot, node, ipl⟩ := r
+  unfold RateLimiter.allows optNext optVerdict
+  cases ipl <;> rfl
+
+theorem optRel_allows {B : Nat} {o o' : Option (Limiter Nat)} {hi now : Nat} (key : Nat)
+    (h : OptRel B o o' hi) (hh : hi ≤ now) (hn : now + 2 * B < U64) :
+    optVerdict o now key = optVerdict o' now key ∧ OptRel B (optNext o now key) (optNext o' now key) now := by
+  rcases h with ⟨rfl, rfl⟩ | ⟨l, l', rfl, rfl, h3, h4, h5⟩
+  · exact ⟨rfl, Or.inl ⟨rfl, rfl⟩⟩
+  · have := pruneRel_arrive key 1 h3 hh (by omega) (by omega)
+    refine ⟨this.1, Or.inr ⟨_, _, rfl, rfl, this.2, ?_⟩⟩
+    rw [allows_t, allows_tau]; exact ⟨h4, h5⟩
+
+theorem rrel_allows {B : Nat} {r r' : RateLimiter} {hi now : Nat} (kind : LimitKind)
+    (h : RRel B r r' hi) (hh : hi ≤ now) (hn : now + 2 * B < U64) :
+    (r.allows now kind).2 = (r'.allows now kind).2 ∧ RRel B (r.allows now kind).1 (r'.allows now kind).1 now := by
+  cases kind with
+  | total =>
+    have := pruneRel_arrive () 1 h.total hh (by have := h.total_wf; omega) (by have := h.total_wf; omega)
+    refine ⟨this.1, ⟨this.2, ?_, h.node.mono hh, h.ip.mono hh⟩⟩
+    show ((r.total.allows now () 1).1.t ≤ (r.total.allows now () 1).1.tau ∧ (r.total.allows now () 1).1.tau ≤ B)
+    rw [allows_t, allows_tau]; exact h.total_wf
+  | nodeId id =>
+    have := optRel_allows id h.node hh hn
+    rw [allows_node, allows_node]
+    exact ⟨this.1, ⟨h.total.mono hh, h.total_wf, this.2, h.ip.mono hh⟩⟩
+  | ip ipk =>
+    have := optRel_allows ipk h.ip hh hn
+    rw [allows_ip, allows_ip]
+    exact ⟨this.1, ⟨h.total.mono hh, h.total_wf, h.node.mono hh, this.2⟩⟩
+
+theorem rrel_prune {B : Nat} {r r' : RateLimiter} {hi lim : Nat} (h : RRel B r r' hi)
+    (hh : hi ≤ lim) (hl : lim < U64) : RRel B (r.prune lim) r' lim :=
+  ⟨pruneRel_prune h.total hh hl, h.total_wf, optRel_prune h.node hh hl, optRel_prune h.ip hh hl⟩
+
+theorem rrel_run {B : Nat} {r r' : RateLimiter} {hi : Nat} (es : List REv)
+    (h : RRel B r r' hi) (hT : RTimed B hi es) : (rrun r es).2 = (rrun r' (rstrip es)).2 := by
+  induction es generalizing r r' hi with
+  | nil => rfl
+  | cons e es ih =>
+    cases e with
+    | allow ns kind =>
+      obtain ⟨h1, h2, h3⟩ := hT
+      have hs := rrel_allows kind h h1 h2
+      simp only [rstrip, rrun]
+      rw [hs.1, ih hs.2 h3]
+    | prune ns =>
+      obtain ⟨h1, h2, h3⟩ := hT
+      simp only [rstrip, rrun]
+      exact ih (rrel_prune h h1 h2) h3
+
+theorem fromQuota_rel {α : Type} [DecidableEq α] {n p : Nat} {l : Limiter α} (lo : Nat)
+    (hq : fromQuota n p = some l) : PruneRel l l lo ∧ l.t ≤ l.tau := by
+  obtain ⟨rfl, hn, hp, _⟩ := fromQuota_eq hq
+  exact ⟨pruneRel_refl _ lo (fun k v hv => by simp [fresh] at hv), Nat.div_le_self _ _⟩
+
+theorem optFromQuota_rel {q : Option (Nat × Nat)} {o : Option (Limiter Nat)} (B lo : Nat)
+    (hq : optFromQuota q = some o) (hB : ∀ l, o = some l → l.tau ≤ B) : OptRel B o o lo := by
+  unfold optFromQuota at hq
+  cases q with
+  | none => simp at hq; subst hq; exact Or.inl ⟨rfl, rfl⟩
+  | some q =>
+    obtain ⟨n, p⟩ := q
+    simp only [] at hq
+    cases hf : (fromQuota n p : Option (Limiter Nat)) with
+    | none => simp [hf] at hq
+    | some l =>
+      simp [hf] at hq
+      subst hq
+      exact Or.inr ⟨l, l, rfl, rfl, (fromQuota_rel lo hf).1, (fromQuota_rel lo hf).2, hB l rfl⟩
+
+theorem rrel_build {total node ip : Option (Nat × Nat)} {r : RateLimiter}
+    (h : RateLimiter.build total node ip = some r) (B : Nat) (hB : r.total.tau ≤ B)
+    (hBn : ∀ l, r.node = some l → l.tau ≤ B) (hBi : ∀ l, r.ip = some l → l.tau ≤ B) (lo : Nat) :
+    RRel B r r lo := by
+  unfold RateLimiter.build at h
+  cases total with
+  | none => simp at h
+  | some q =>
+    obtain ⟨n, p⟩ := q
+    simp only [] at h
+    cases ht : (fromQuota n p : Option (Limiter Unit)) with
+    | none => simp [ht] at h
+    | some tl =>
+      cases hn : optFromQuota node with
+      | none => simp [ht, hn] at h
+      | some nodeRl =>
+        cases hi : optFromQuota ip with
+        | none => simp [ht, hn, hi] at h
+        | some ipRl =>
+          simp only [ht, hn, hi] at h
+          injection h with h
+          subst h
+          exact ⟨(fromQuota_rel lo ht).1, ⟨(fromQuota_rel lo ht).2, hB⟩,
+            optFromQuota_rel B lo hn hBn, optFromQuota_rel B lo hi hBi⟩
+
 end Discv5.Limiter
+
+/-! ## The two-stage filter -/
+
+namespace Discv5.Filter
+open Discv5.Limiter
+
+/-- One operation on the filter and the global lists. -/
+inductive FOp where
+  | initial (now : Nat) (ip : Ip)
+  | final (now : Nat) (ip : Ip) (node : NodeId)
+  | inbound (now : Nat) (permitted : Bool) (ip : Ip) (d : Decoded)
+  | prune (now : Nat)
+  | sweep (now : Nat)
+
+def FOp.time : FOp → Nat
+  | .initial now _ => now
+  | .final now _ _ => now
+  | .inbound now _ _ _ => now
+  | .prune now => now
+  | .sweep now => now
+
+def FOp.isSweep : FOp → Bool
+  | .sweep _ => true
+  | _ => false
+
+/-- Executes one operation. -/
+def fstep (s : Filter × PermitBan) : FOp → Filter × PermitBan
+  | .initial now ip => ((s.1.initialPass s.2 now ip).1, (s.1.initialPass s.2 now ip).2.1)
+  | .final now ip node => ((s.1.finalPass s.2 now ip node).1, (s.1.finalPass s.2 now ip node).2.1)
+  | .inbound now permitted ip d =>
+    ((handleInbound s.1 s.2 now permitted ip d).1, (handleInbound s.1 s.2 now permitted ip d).2.1)
+  | .prune now => (s.1.pruneLimiter now, s.2)
+  | .sweep now => (s.1, s.2.sweep now)
+
+def frun (s : Filter × PermitBan) : List FOp → Filter × PermitBan
+  | [] => s
+  | op :: ops => frun (fstep s op) ops
+
+/-- A ban map changed at most by inserting `to` somewhere. -/
+def BanStep (m m' : Nat → Option (Option Nat)) (to : Option Nat) : Prop :=
+  ∀ k, m' k = m k ∨ m' k = some to
+
+theorem BanStep.refl (m : Nat → Option (Option Nat)) (to : Option Nat) : BanStep m m to :=
+  fun _ => Or.inl rfl
+
+theorem banStep_insert (m : Nat → Option (Option Nat)) (key : Nat) (to : Option Nat) :
+    BanStep m (banInsert m key to) to := by
+  intro k
+  unfold banInsert
+  by_cases h : k = key
+  · right; simp [h]
+  · left; simp [h]
+
+theorem BanStep.trans {m m' m'' : Nat → Option (Option Nat)} {to : Option Nat}
+    (h1 : BanStep m m' to) (h2 : BanStep m' m'' to) : BanStep m m'' to := by
+  intro k
+  rcases h2 k with h | h
+  · rw [h]; exact h1 k
+  · exact Or.inr h
+
+/-- What one call may do to the lists: permit sets untouched, ban maps only gain entries
+`banTimeout now`, and the configured ban duration stays. -/
+structure Effect (f : Filter) (pb : PermitBan) (now : Nat) (f' : Filter) (pb' : PermitBan) : Prop where
+  dur : f'.banDuration = f.banDuration
+  permitIps : pb'.permitIps = pb.permitIps
+  permitNodes : pb'.permitNodes = pb.permitNodes
+  ips : BanStep pb.banIps pb'.banIps (f.banTimeout now)
+  nodes : BanStep pb.banNodes pb'.banNodes (f.banTimeout now)
+
+theorem Effect.refl (f : Filter) (pb : PermitBan) (now : Nat) : Effect f pb now f pb :=
+  ⟨rfl, rfl, rfl, BanStep.refl _ _, BanStep.refl _ _⟩
+
+theorem Effect.trans {f f' f'' : Filter} {pb pb' pb'' : PermitBan} {now : Nat}
+    (h1 : Effect f pb now f' pb') (h2 : Effect f' pb' now f'' pb'') : Effect f pb now f'' pb'' := by
+  have hto : f'.banTimeout now = f.banTimeout now := by unfold Filter.banTimeout; rw [h1.dur]
+  refine ⟨h2.dur.trans h1.dur, h2.permitIps.trans h1.permitIps, h2.permitNodes.trans h1.permitNodes,
+    h1.ips.trans (hto ▸ h2.ips), h1.nodes.trans (hto ▸ h2.nodes)⟩
+
+/-! ### `initial_pass` -/
+
+theorem initialPass_permit (f : Filter) (pb : PermitBan) (now : Nat) (ip : Ip)
+    (hp : pb.permitIps ip = true) : f.initialPass pb now ip = (f, pb, true) := by
+  unfold Filter.initialPass; rw [if_pos hp]
+
+theorem initialPass_banned (f : Filter) (pb : PermitBan) (now : Nat) (ip : Ip)
+    (hp : pb.permitIps ip = false) (hb : (pb.banIps ip).isSome = true) :
+    f.initialPass pb now ip = (f, pb, false) := by
+  unfold Filter.initialPass; rw [if_neg (by simp [hp]), if_pos hb]
+
+theorem initialPass_excess (f : Filter) (pb : PermitBan) (now : Nat) (ip : Ip) (rl : RateLimiter)
+    (hp : pb.permitIps ip = false) (hb : (pb.banIps ip).isSome = false) (he : f.enabled = true)
+    (hr : f.rateLimiter = some rl) (hx : (rl.allows now (.ip ip)).2.isOk = false) :
+    f.initialPass pb now ip =
+      ({ f with rateLimiter := some (rl.allows now (.ip ip)).1 },
+       { pb with banIps := banInsert pb.banIps ip (f.banTimeout now) }, false) := by
+  unfold Filter.initialPass
+  rw [if_neg (by simp [hp]), if_neg (by simp [hb]), if_neg (by simp [he])]
+  simp only [hr]
+  rw [if_pos (by simp [hx])]
+
+theorem initialPass_effect (f : Filter) (pb : PermitBan) (now : Nat) (ip : Ip) :
+    Effect f pb now (f.initialPass pb now ip).1 (f.initialPass pb now ip).2.1 := by
+  unfold Filter.initialPass
+  by_cases hp : pb.permitIps ip = true
+  · rw [if_pos hp]; exact Effect.refl _ _ _
+  · rw [if_neg hp]
+    by_cases hb : (pb.banIps ip).isSome = true
+    · rw [if_pos hb]; exact Effect.refl _ _ _
+    · rw [if_neg hb]
+      by_cases he : (!f.enabled) = true
+      · rw [if_pos he]; exact Effect.refl _ _ _
+      · rw [if_neg he]
+        cases hr : f.rateLimiter with
+        | none => exact Effect.refl _ _ _
+        | some rl =>
+          simp only []
+          by_cases hx : (!(rl.allows now (.ip ip)).2.isOk) = true
+          · rw [if_pos hx]
+            exact ⟨rfl, rfl, rfl, banStep_insert _ _ _, BanStep.refl _ _⟩
+          · rw [if_neg hx]
+            exact ⟨rfl, rfl, rfl, BanStep.refl _ _, BanStep.refl _ _⟩
+
+/-! ### `final_pass` -/
+
+theorem finalPass_permit (f : Filter) (pb : PermitBan) (now : Nat) (ip : Ip) (node : NodeId)
+    (hp : pb.permitNodes node = true) : f.finalPass pb now ip node = (f, pb, true) := by
+  unfold Filter.finalPass; rw [if_pos hp]
+
+theorem finalPass_banned (f : Filter) (pb : PermitBan) (now : Nat) (ip : Ip) (node : NodeId)
+    (hp : pb.permitNodes node = false) (hb : (pb.banNodes node).isSome = true) :
+    f.finalPass pb now ip node = (f, pb, false) := by
+  unfold Filter.finalPass; rw [if_neg (by simp [hp]), if_pos hb]
+
+theorem countBan_effect (f : Filter) (pb : PermitBan) (now : Nat) (ip : Ip) (maxBans : Nat) :
+    Effect f pb now (f.countBan pb now ip maxBans).1 (f.countBan pb now ip maxBans).2 ∧
+    (f.countBan pb now ip maxBans).2.banNodes = pb.banNodes := by
+  unfold Filter.countBan
+  cases f.bannedNodes.find? ip with
+  | none => exact ⟨Effect.refl _ _ _ |>.trans ⟨rfl, rfl, rfl, BanStep.refl _ _, BanStep.refl _ _⟩, rfl⟩
+  | some count =>
+    simp only []
+    by_cases h : count + 1 ≥ maxBans
+    · rw [if_pos h]
+      exact ⟨⟨rfl, rfl, rfl, banStep_insert _ _ _, BanStep.refl _ _⟩, rfl⟩
+    · rw [if_neg h]
+      exact ⟨⟨rfl, rfl, rfl, BanStep.refl _ _, BanStep.refl _ _⟩, rfl⟩
+
+theorem nodeExcess_spec (f : Filter) (pb : PermitBan) (now : Nat) (ip : Ip) (node : NodeId) :
+    (f.nodeExcess pb now ip node).2.2 = false ∧
+    (f.nodeExcess pb now ip node).2.1.banNodes = banInsert pb.banNodes node (f.banTimeout now) ∧
+    Effect f pb now (f.nodeExcess pb now ip node).1 (f.nodeExcess pb now ip node).2.1 := by
+  unfold Filter.nodeExcess
+  have hstep : Effect f pb now f { pb with banNodes := banInsert pb.banNodes node (f.banTimeout now) } :=
+    ⟨rfl, rfl, rfl, BanStep.refl _ _, banStep_insert _ _ _⟩
+  cases f.maxBansPerIp with
+  | none => exact ⟨rfl, rfl, hstep⟩
+  | some maxBans =>
+    have := countBan_effect f { pb with banNodes := banInsert pb.banNodes node (f.banTimeout now) }
+      now ip maxBans
+    exact ⟨rfl, this.2, hstep.trans this.1⟩
+
+theorem nodesPerIp_effect (f : Filter) (pb : PermitBan) (now : Nat) (ip : Ip) (node : NodeId)
+    (maxNodes : Nat) :
+    Effect f pb now (f.nodesPerIp pb now ip node maxNodes).1 (f.nodesPerIp pb now ip node maxNodes).2.1 := by
+  unfold Filter.nodesPerIp
+  cases f.knownAddrs.find? ip with
+  | none =>
+    simp only []
+    by_cases h : 1 ≥ maxNodes
+    · rw [if_pos h]; exact ⟨rfl, rfl, rfl, banStep_insert _ _ _, BanStep.refl _ _⟩
+    · rw [if_neg h]; exact ⟨rfl, rfl, rfl, BanStep.refl _ _, BanStep.refl _ _⟩
+  | some ids =>
+    simp only []
+    by_cases h : (if ids.contains node = true then ids else ids ++ [node]).length ≥ maxNodes
+    · rw [if_pos h]; exact ⟨rfl, rfl, rfl, banStep_insert _ _ _, BanStep.refl _ _⟩
+    · rw [if_neg h]; exact ⟨rfl, rfl, rfl, BanStep.refl _ _, BanStep.refl _ _⟩
+
+theorem finalTail_effect (f : Filter) (pb : PermitBan) (now : Nat) (ip : Ip) (node : NodeId) :
+    Effect f pb now (f.finalTail pb now ip node).1 (f.finalTail pb now ip node).2.1 := by
+  unfold Filter.finalTail
+  cases f.maxNodesPerIp with
+  | none => exact Effect.refl _ _ _
+  | some maxNodes => exact nodesPerIp_effect f pb now ip node maxNodes
+
+theorem finalPass_excess (f : Filter) (pb : PermitBan) (now : Nat) (ip : Ip) (node : NodeId)
+    (rl : RateLimiter)
+    (hp : pb.permitNodes node = false) (hb : (pb.banNodes node).isSome = false)
+    (he : f.enabled = true) (hr : f.rateLimiter = some rl)
+    (hx : (rl.allows now (.nodeId node)).2.isOk = false) :
+    (f.finalPass pb now ip node).2.2 = false ∧
+    (f.finalPass pb now ip node).2.1.banNodes node = some (f.banTimeout now) := by
+  unfold Filter.finalPass
+  rw [if_neg (by simp [hp]), if_neg (by simp [hb]), if_neg (by simp [he])]
+  simp only [hr]
+  rw [if_pos (by simp [hx])]
+  have := nodeExcess_spec { f with rateLimiter := some (rl.allows now (.nodeId node)).1 } pb now ip node
+  refine ⟨this.1, ?_⟩
+  rw [this.2.1]
+  simp [banInsert, Filter.banTimeout]
+
+theorem finalPass_effect (f : Filter) (pb : PermitBan) (now : Nat) (ip : Ip) (node : NodeId) :
+    Effect f pb now (f.finalPass pb now ip node).1 (f.finalPass pb now ip node).2.1 := by
+  unfold Filter.finalPass
+  by_cases hp : pb.permitNodes node = true
+  · rw [if_pos hp]; exact Effect.refl _ _ _
+  · rw [if_neg hp]
+    by_cases hb : (pb.banNodes node).isSome = true
+    · rw [if_pos hb]; exact Effect.refl _ _ _
+    · rw [if_neg hb]
+      by_cases he : (!f.enabled) = true
+      · rw [if_pos he]; exact Effect.refl _ _ _
+      · rw [if_neg he]
+        cases hr : f.rateLimiter with
+        | none => exact finalTail_effect f pb now ip node
+        | some rl =>
+          simp only []
+          have h0 : Effect f pb now { f with rateLimiter := some (rl.allows now (.nodeId node)).1 } pb :=
+            ⟨rfl, rfl, rfl, BanStep.refl _ _, BanStep.refl _ _⟩
+          by_cases hx : (!(rl.allows now (.nodeId node)).2.isOk) = true
+          · rw [if_pos hx]
+            exact h0.trans (nodeExcess_spec _ pb now ip node).2.2
+          · rw [if_neg hx]
+            exact h0.trans (finalTail_effect _ pb now ip node)
+
+/-! ### `handle_inbound` -/
+
+theorem handleInbound_permitted (f : Filter) (pb : PermitBan) (now : Nat) (ip : Ip) (d : Decoded) :
+    handleInbound f pb now true ip d =
+      (f, pb, match d with | .garbage => Outcome.unrecognized | _ => Outcome.inbound) := by
+  unfold handleInbound
+  cases d <;> simp
+
+theorem handleInbound_effect (f : Filter) (pb : PermitBan) (now : Nat) (permitted : Bool) (ip : Ip)
+    (d : Decoded) :
+    Effect f pb now (handleInbound f pb now permitted ip d).1 (handleInbound f pb now permitted ip d).2.1 := by
+  cases permitted with
+  | true => rw [handleInbound_permitted]; exact Effect.refl _ _ _
+  | false =>
+    unfold handleInbound
+    simp only [Bool.false_eq_true, if_false]
+    have h1 := initialPass_effect f pb now ip
+    by_cases hok : (!(f.initialPass pb now ip).2.2) = true
+    · rw [if_pos hok]; exact h1
+    · rw [if_neg hok]
+      cases d with
+      | garbage => exact h1
+      | noSrc => exact h1
+      | src node =>
+        simp only []
+        have h2 := finalPass_effect (f.initialPass pb now ip).1 (f.initialPass pb now ip).2.1 now ip node
+        by_cases hf : ((f.initialPass pb now ip).1.finalPass (f.initialPass pb now ip).2.1 now ip node).2.2 = true
+        · rw [if_pos hf]; exact h1.trans h2
+        · rw [if_neg hf]; exact h1.trans h2
+
+/-! ### The ban sweep and the life time of a ban -/
+
+theorem sweepMap_spec (m : Nat → Option (Option Nat)) (now k : Nat) :
+    (sweepMap m now k = m k ∧ (∀ e, m k = some (some e) → now < e)) ∨
+    (sweepMap m now k = none ∧ ∃ e, m k = some (some e) ∧ e ≤ now) := by
+  unfold sweepMap
+  cases h : m k with
+  | none => left; simp
+  | some o =>
+    cases o with
+    | none => left; simp
+    | some e =>
+      simp only []
+      by_cases hn : now < e
+      · rw [if_pos hn]; left; exact ⟨rfl, fun e' he' => by injection he' with he'; injection he' with he'; omega⟩
+      · rw [if_neg hn]; right; exact ⟨rfl, e, rfl, by omega⟩
+
+/-- `key` is banned in `m` at least until `D`. -/
+def BannedUntil (m : Nat → Option (Option Nat)) (key D : Nat) : Prop :=
+  ∃ e, m key = some e ∧ ∀ x, e = some x → D ≤ x
+
+theorem bannedUntil_step {m m' : Nat → Option (Option Nat)} {to : Option Nat} {key D : Nat}
+    (h : BannedUntil m key D) (hs : BanStep m m' to) (hto : ∀ x, to = some x → D ≤ x) :
+    BannedUntil m' key D := by
+  rcases hs key with h1 | h1
+  · obtain ⟨e, he, hx⟩ := h; exact ⟨e, by rw [h1, he], hx⟩
+  · exact ⟨to, h1, hto⟩
+
+theorem bannedUntil_sweep {m : Nat → Option (Option Nat)} {key D now : Nat}
+    (h : BannedUntil m key D) (hn : now < D) : BannedUntil (sweepMap m now) key D := by
+  obtain ⟨e, he, hx⟩ := h
+  rcases sweepMap_spec m now key with ⟨h1, _⟩ | ⟨_, e', he', hle⟩
+  · exact ⟨e, by rw [h1, he], hx⟩
+  · rw [he] at he'
+    injection he' with he'
+    have := hx e' he'
+    omega
+
+theorem fstep_effect (s : Filter × PermitBan) (op : FOp) (hs : op.isSweep = false) :
+    Effect s.1 s.2 op.time (fstep s op).1 (fstep s op).2 := by
+  cases op with
+  | initial now ip => exact initialPass_effect _ _ _ _
+  | final now ip node => exact finalPass_effect _ _ _ _ _
+  | inbound now permitted ip d => exact handleInbound_effect _ _ _ _ _ _
+  | prune now => exact ⟨rfl, rfl, rfl, BanStep.refl _ _, BanStep.refl _ _⟩
+  | sweep now => simp [FOp.isSweep] at hs
+
+theorem fstep_dur (s : Filter × PermitBan) (op : FOp) : (fstep s op).1.banDuration = s.1.banDuration := by
+  cases h : op.isSweep with
+  | false => exact (fstep_effect s op h).dur
+  | true => cases op <;> simp [FOp.isSweep] at h; rfl
+
+/-- Operations admissible while a ban that must last until `D` is in force: every operation
+happens at a time `now` with `D ≤ now + ban_duration` (true for all `now ≥` the time the ban was
+created when `D` = that time + `ban_duration`), sweeps happen before `D`. -/
+def Before (dur : Option Nat) (D : Nat) : List FOp → Prop
+  | [] => True
+  | op :: ops => (∀ d, dur = some d → D ≤ op.time + d) ∧ (op.isSweep = true → op.time < D) ∧ Before dur D ops
+
+theorem banned_ip_persists (s : Filter × PermitBan) (ip D : Nat) (ops : List FOp)
+    (hb : BannedUntil s.2.banIps ip D) (ho : Before s.1.banDuration D ops) :
+    BannedUntil (frun s ops).2.banIps ip D := by
+  induction ops generalizing s with
+  | nil => exact hb
+  | cons op ops ih =>
+    obtain ⟨h1, h2, h3⟩ := ho
+    simp only [frun]
+    apply ih
+    · cases hsw : op.isSweep with
+      | false =>
+        have he := fstep_effect s op hsw
+        refine bannedUntil_step hb he.ips ?_
+        intro x hx
+        unfold Filter.banTimeout at hx
+        cases hd : s.1.banDuration with
+        | none => simp [hd] at hx
+        | some d => simp [hd] at hx; have := h1 d hd; omega
+      | true =>
+        cases op with
+        | sweep now => exact bannedUntil_sweep hb (h2 hsw)
+        | _ => simp [FOp.isSweep] at hsw
+    · rw [fstep_dur]; exact h3
+
+theorem banned_node_persists (s : Filter × PermitBan) (node D : Nat) (ops : List FOp)
+    (hb : BannedUntil s.2.banNodes node D) (ho : Before s.1.banDuration D ops) :
+    BannedUntil (frun s ops).2.banNodes node D := by
+  induction ops generalizing s with
+  | nil => exact hb
+  | cons op ops ih =>
+    obtain ⟨h1, h2, h3⟩ := ho
+    simp only [frun]
+    apply ih
+    · cases hsw : op.isSweep with
+      | false =>
+        have he := fstep_effect s op hsw
+        refine bannedUntil_step hb he.nodes ?_
+        intro x hx
+        unfold Filter.banTimeout at hx
+        cases hd : s.1.banDuration with
+        | none => simp [hd] at hx
+        | some d => simp [hd] at hx; have := h1 d hd; omega
+      | true =>
+        cases op with
+        | sweep now => exact bannedUntil_sweep hb (h2 hsw)
+        | _ => simp [FOp.isSweep] at hsw
+    · rw [fstep_dur]; exact h3
+
+end Discv5.Filter
